@@ -14,6 +14,29 @@ from sa.model import AnalysisError  # noqa: E402
 from sa.report import Check  # noqa: E402
 
 
+def selftest(chk, pid, root):
+  """Thorough tier: the checker itself is tested both ways on scratch copies
+  (mutants must fire naming the rule, benign twins must stay silent).  A
+  failure means the checker is broken: exit 2, never a verdict."""
+  from selftest import run as st
+  res = st.run(prop=pid, jobs=16, root=root, quiet=True)
+  fired = [r for r in res if r['status'] == 'fired']
+  silent = [r for r in res if r['status'] == 'silent']
+  skipped = [r for r in res if r['status'] == 'skipped']
+  bad = [r for r in res if r['status'] in ('MISSED', 'FALSE-ALARM')]
+  chk.extra['selftest'] = dict(
+      mutants_fired=len(fired), twins_silent=len(silent), skipped=len(skipped),
+      failed=[r['id'] for r in bad],
+      fired_ids=[r['id'] for r in fired], silent_ids=[r['id'] for r in silent])
+  chk.more_evaluations += len(res)
+  if bad:
+    raise AnalysisError('self-test of the %s checker failed: %s' % (
+        pid, ', '.join('%s (%s)' % (r['id'], r['status']) for r in bad)))
+  if not fired:
+    raise AnalysisError('self-test of the %s checker applied no mutant '
+                        '(%d skipped): cannot show the rules have teeth' % (pid, len(skipped)))
+
+
 def main(argv):
   ap = argparse.ArgumentParser()
   ap.add_argument('pid')
@@ -42,8 +65,8 @@ def main(argv):
   chk = Check(pid, tier=a.tier, root=a.root, seed=seed)
   try:
     mod.run(chk)
-    if a.tier == 'thorough' and not a.no_selftest and hasattr(mod, 'selftest'):
-      mod.selftest(chk)
+    if a.tier == 'thorough' and not a.no_selftest:
+      selftest(chk, pid, a.root)
     return chk.finish()
   except AnalysisError as e:
     print('ANALYSIS-ERROR property=%s %s' % (pid, e))
